@@ -116,6 +116,19 @@ theorem closetag_ok (t : Str) (b : Bool) (st : St) (h : 0 < st.depth) : closetag
 @[simp] theorem getAnchor_listtypes (n : Str) (st : St) : (getAnchor n st).2.listtypes = st.listtypes := by simp only [getAnchor]; split <;> rfl
 @[simp] theorem getAnchor_data (n : Str) (st : St) : (getAnchor n st).2.data = st.data := by simp only [getAnchor]; split <;> rfl
 
+/-- what `emitCss` appends -/
+def cssToks (s : Str) : List Tok := if s.isEmpty then [] else [.raw (.css s)]
+
+@[simp] theorem emitCss_out (s : Str) (st : St) : (emitCss s st).out = st.out ++ cssToks s := by
+  unfold emitCss cssToks; split <;> simp
+@[simp] theorem emitCss_depth (s : Str) (st : St) : (emitCss s st).depth = st.depth := by unfold emitCss; split <;> rfl
+@[simp] theorem emitCss_saved (s : Str) (st : St) : (emitCss s st).saved = st.saved := by unfold emitCss; split <;> rfl
+@[simp] theorem emitCss_nbOpen (s : Str) (st : St) : (emitCss s st).nbOpen = st.nbOpen := by unfold emitCss; split <;> rfl
+@[simp] theorem emitCss_notes (s : Str) (st : St) : (emitCss s st).notes = st.notes := by unfold emitCss; split <;> rfl
+@[simp] theorem emitCss_cur (s : Str) (st : St) : (emitCss s st).cur = st.cur := by unfold emitCss; split <;> rfl
+@[simp] theorem emitCss_listtypes (s : Str) (st : St) : (emitCss s st).listtypes = st.listtypes := by unfold emitCss; split <;> rfl
+@[simp] theorem emitCss_data (s : Str) (st : St) : (emitCss s st).data = st.data := by unfold emitCss; split <;> rfl
+
 @[simp] theorem tfh_out (st : St) : (titleFromHeading st).out = st.out := by unfold titleFromHeading; split <;> rfl
 @[simp] theorem tfh_depth (st : St) : (titleFromHeading st).depth = st.depth := by unfold titleFromHeading; split <;> rfl
 @[simp] theorem tfh_saved (st : St) : (titleFromHeading st).saved = st.saved := by unfold titleFromHeading; split <;> rfl
@@ -196,6 +209,9 @@ theorem Balanced.replicate {t : Tok} (h : br t = .neutral) (n : Nat) : Balanced 
 
 theorem Balanced.cons_neutral {t : Tok} {w : List Tok} (ht : br t = .neutral) (h : Balanced w) : Balanced (t :: w) :=
   Balanced.append (w1 := [t]) (Balanced.neutral ht) h
+
+@[simp] theorem bal_cssToks (c : Str) (S : List Str) : bal (cssToks c) S = some S := by
+  unfold cssToks; split <;> simp [bal, br]
 
 @[simp] theorem bal_dataToks (d : Str) (S : List Str) : bal (dataToks d) S = some S := Balanced.dataToks d S
 
@@ -476,6 +492,18 @@ theorem set_last {α : Type} (l : List α) (x y : α) : (l ++ [x]).set l.length 
   | nil => rfl
   | cons a l ih => simp [List.set, ih]
 
+theorem citation_spec (cfg : Cfg) (ctx : Ctx) (q : Str) (a : Attrs) (pe pc : Bool) (st : St) (h1 : st.cur ≠ 0)
+    (h2 : st.cur ≤ st.notes.length) :
+    runH cfg ctx .e_text_note_citation q a pe pc st =
+      .ok (closePure nA true (closePure nSup true (emit (.raw (.num st.cur))
+        (opentag nSup [] false (opentag nA [(aHref, sHashFootnote ++ natToStr st.cur)] false st)))), pe, pc) := by
+  have hc : (st.cur = 0 || decide (st.cur > st.notes.length)) = false := by simp [h1]; omega
+  simp only [runH, hc]
+  rw [closetag_ok _ _ _ (by simp)]
+  simp only [bind, Except.bind]
+  rw [closetag_ok _ _ _ (by simp)]
+  rfl
+
 /-- below an ignored element nothing happens -/
 theorem walkList_dead (cfg : Cfg) (ctx : Ctx) (st : St) (l : List Node) (hpe : ctx.pe = false) :
     walkList cfg ctx st l = .ok st := by
@@ -492,21 +520,22 @@ mutual
 theorem walk_flow (cfg : Cfg) (n : Node) (b : Bool) (ctx : Ctx) (st : St) (hf : Flow b n) (hpe : ctx.pe = true)
     (hst : ctx.stack ≠ []) (hi : Inv b st) : ∃ st', walk cfg ctx st n = .ok st' ∧ Eff b st st' := by
   cases hf with
-  | text s =>
+  | text _ s =>
     refine ⟨_, walk_text cfg ctx st s, ?_⟩
     split
     · exact Eff.of_data hi _
     · exact Eff.refl hi
-  | transparent q a kids hd hk =>
+  | transparent _ q a kids hd hk =>
     obtain ⟨st2, h2, e2⟩ := walkList_flow cfg kids b ⟨(q, a) :: ctx.stack, ctx.pe, ctx.pc⟩ st hk hpe (by simp) hi
     refine ⟨st2, ?_, e2⟩
     rw [walk_elem _ _ _ _ _ _ hpe]
+    simp only [hpe] at h2
     simp [startEl, endEl, hd, h2, hpe]
-  | ignored q a kids he hd =>
+  | ignored _ q a kids he hd =>
     refine ⟨st, ?_, Eff.refl hi⟩
     rw [walk_elem _ _ _ _ _ _ hpe]
     simp [startEl, hd, runH, walkList_dead]
-  | bracket q a kids hs he hd hb hk =>
+  | bracket _ q a kids hs he hd hb hk =>
     obtain ⟨t, ho, hc⟩ := bracket_spec hb cfg ctx q ctx.pe ctx.pc st
     obtain ⟨st1, hr1, hd1, hs1, hb1⟩ := ho
     have hi1 : Inv b st1 := ⟨by rw [hs1.saved]; exact hi.1, by rw [hs1.nbOpen]; exact hi.2.1, by rw [hs1.cur, hs1.notes]; exact hi.2.2⟩
@@ -514,6 +543,7 @@ theorem walk_flow (cfg : Cfg) (n : Node) (b : Bool) (ctx : Ctx) (st : St) (hf : 
     obtain ⟨st3, pe3, pc3, hr3, hd3, hs3, hb3⟩ := hc st2 ctx.pe ctx.pc (by rw [e2.listtypes, hs1.listtypes]) (by rw [e2.depth, hd1]; omega)
     refine ⟨st3, ?_, ?_⟩
     · rw [walk_elem _ _ _ _ _ _ hpe]
+      simp only [hpe] at h2 hr1 hr3
       simp [startEl, endEl, hd, hr1, h2, hpe, hr3, Except.map]
     · obtain ⟨N, hN, okN, nN⟩ := e2.notes
       have hdd := e2.depth
@@ -524,25 +554,275 @@ theorem walk_flow (cfg : Cfg) (n : Node) (b : Bool) (ctx : Ctx) (st : St) (hf : 
       · rw [hs3.cur, hs3.notes]; exact e2.cur
       · rw [hs3.notes, hN, hs1.notes]
       · intro s S h; exact hb3 s S (e2.stack s _ (hb1 s S h))
-  | leaf q a kids hs hd hl hk =>
+  | leaf _ q a kids hs hd hl hk =>
     obtain ⟨st1, hr1, hd1, hs1, hb1⟩ := leaf_spec hl cfg ctx hst q ctx.pe ctx.pc st
     have e1 : Eff b st st1 := Eff.of_same hi hd1 hs1 hb1
     obtain ⟨st2, h2, e2⟩ := walkList_flow cfg kids b ⟨(q, a) :: ctx.stack, ctx.pe, ctx.pc⟩ st1 hk hpe (by simp) (e1.inv hi)
     refine ⟨st2, ?_, e1.trans e2⟩
     rw [walk_elem _ _ _ _ _ _ hpe]
+    simp only [hpe] at h2 hr1
     simp [startEl, endEl, hd, hr1, h2, hpe]
-  | note q a qc ac cite qb ab kids hd hdc hdb hk => sorry
+  | note q a qc ac cite qb ab kids hd hdc hdb hk =>
+    have hsv : st.saved = none := by
+      have h1 := hi.1
+      cases h : st.saved with
+      | none => rfl
+      | some x => rw [h] at h1; simp at h1
+    have hnb : st.nbOpen = false := hi.2.1
+    have hcur : st.cur = st.notes.length := hi.2.2
+    -- s_text_note
+    let st1 : St := { purgedata (writedata st) with cur := st.cur + 1, notes := st.notes ++ [none], nbOpen := true }
+    have hr1 : runH cfg ctx .s_text_note q a true ctx.pc st = .ok (st1, true, ctx.pc) := by simp [runH, hsv, st1]
+    -- the citation: its text only reaches self.data; e_text_note_citation writes <a><sup>n</sup></a>
+    obtain ⟨d, hcit⟩ := walkList_texts cfg ⟨(qc, ac) :: (q, a) :: ctx.stack, true, ctx.pc⟩ st1 cite
+    let st1d : St := { st1 with data := d }
+    let st2 : St := closePure nA true (closePure nSup true (emit (.raw (.num st1d.cur))
+      (opentag nSup [] false (opentag nA [(aHref, sHashFootnote ++ natToStr st1d.cur)] false st1d))))
+    have hr2 : runH cfg ⟨(q, a) :: ctx.stack, true, ctx.pc⟩ .e_text_note_citation qc ac true ctx.pc st1d = .ok (st2, true, ctx.pc) := by
+      rw [citation_spec _ _ _ _ _ _ _ (by simp [st1d, st1]) (by simp [st1d, st1, hcur])]
+    -- the body: the buffer is swapped, the children are running text inside a note
+    let st3 : St := { st2 with saved := some st2.out, out := [] }
+    have hr3 : runH cfg ⟨(q, a) :: ctx.stack, true, ctx.pc⟩ .s_text_note_body qb ab true ctx.pc st2 = .ok (st3, true, ctx.pc) := by
+      simp [runH, st3, st2, st1d, st1, hsv]
+    have hi3 : Inv true st3 := ⟨rfl, rfl, by simp [st3, st2, st1d, st1, hcur]⟩
+    obtain ⟨st4, h4, e4⟩ := walkList_flow cfg kids true ⟨(qb, ab) :: (q, a) :: ctx.stack, true, ctx.pc⟩ st3 hk rfl (by simp) hi3
+    obtain ⟨N4, hN4, _, nN4⟩ := e4.notes
+    have hN4' : st4.notes = st.notes ++ [none] := by rw [hN4, nN4 rfl]; simp [st3, st2, st1d, st1]
+    have hcur4 : st4.cur = st.notes.length + 1 := by rw [e4.cur, hN4']; simp
+    have hsv4 : st4.saved = some st2.out := by rw [e4.saved]
+    let st5 : St := { st4 with out := st2.out, saved := none, notes := st.notes ++ [some st4.out], nbOpen := false }
+    have hr5 : runH cfg ⟨(q, a) :: ctx.stack, true, ctx.pc⟩ .e_text_note_body qb ab true ctx.pc st4 = .ok (st5, true, ctx.pc) := by
+      simp [runH, hsv4, hcur4, hN4', st5, set_last]
+    have hbody : Balanced st4.out := fun s => e4.stack s s rfl
+    refine ⟨st5, ?_, ?_⟩
+    · rw [walk_elem _ _ _ _ _ _ hpe]
+      simp only [startEl, hd, hpe, hr1]
+      simp only [walkList]
+      rw [walk_elem _ _ _ _ _ _ rfl]
+      simp only [startEl, endEl, hdc, hcit]
+      simp only [st1d] at hr2
+      simp only [hr2, Except.map, if_true]
+      rw [walk_elem _ _ _ _ _ _ rfl]
+      simp only [startEl, endEl, hdb, hr3, h4, hr5, Except.map, if_true, hd]
+    · refine ⟨?_, ?_, ?_, ?_, ?_, ⟨[some st4.out], rfl, ?_, fun h => nomatch h⟩, ?_⟩
+      · have := e4.depth; simp [st5, this, st3, st2, st1d, st1]
+      · simp [st5, hsv]
+      · simp [st5, hnb]
+      · have := e4.listtypes; simp [st5, this, st3, st2, st1d, st1]
+      · simp [st5, hcur4]
+      · intro x hx; simp at hx; exact ⟨st4.out, hx, hbody⟩
+      · intro s S h
+        simp [st5, st2, st1d, st1, bal_append, h, bal, br]
 termination_by sizeOf n
 
 theorem walkList_flow (cfg : Cfg) (l : List Node) (b : Bool) (ctx : Ctx) (st : St) (hf : FlowL b l) (hpe : ctx.pe = true)
     (hst : ctx.stack ≠ []) (hi : Inv b st) : ∃ st', walkList cfg ctx st l = .ok st' ∧ Eff b st st' := by
   cases hf with
-  | nil => exact ⟨st, by simp [walkList], Eff.refl hi⟩
-  | cons n ns hn hns =>
+  | nil _ => exact ⟨st, by simp [walkList], Eff.refl hi⟩
+  | cons _ n ns hn hns =>
     obtain ⟨st1, h1, e1⟩ := walk_flow cfg n b ctx st hn hpe hst hi
     obtain ⟨st2, h2, e2⟩ := walkList_flow cfg ns b ctx st1 hns hpe hst (e1.inv hi)
     exact ⟨st2, by simp [walkList, h1, h2], e1.trans e2⟩
 termination_by sizeOf l
 end
+
+/-! ### the part of the document before the body (meta data, styles) -/
+
+/-- nothing is written and the note machinery is untouched (pending data, title, meta tags, list types may change) -/
+structure QuietEff (st st' : St) : Prop where
+  out : st'.out = st.out
+  depth : st'.depth = st.depth
+  saved : st'.saved = st.saved
+  nbOpen : st'.nbOpen = st.nbOpen
+  notes : st'.notes = st.notes
+  cur : st'.cur = st.cur
+
+theorem QuietEff.refl (st : St) : QuietEff st st := ⟨rfl, rfl, rfl, rfl, rfl, rfl⟩
+
+theorem QuietEff.trans {a b c : St} (h1 : QuietEff a b) (h2 : QuietEff b c) : QuietEff a c :=
+  ⟨h2.out.trans h1.out, h2.depth.trans h1.depth, h2.saved.trans h1.saved, h2.nbOpen.trans h1.nbOpen,
+   h2.notes.trans h1.notes, h2.cur.trans h1.cur⟩
+
+/-- handlers that write nothing, with what the two list-level handlers need from the attributes and the enclosing elements -/
+def quietOK (h : HName) (a : Attrs) (stack : List (Str × Attrs)) : Prop :=
+  match h with
+  | .s_processcont | .s_ignorexml | .s_ignorecont | .e_dc_title | .e_dc_metatag | .e_dc_contentlanguage | .e_dc_creator
+  | .s_office_automatic_styles | .s_office_master_styles | .s_office_styles
+  | .s_style_default_style | .e_style_default_style | .s_style_font_face | .s_style_handle_properties
+  | .s_style_page_layout | .e_style_page_layout | .s_style_style | .e_style_style
+  | .e_text_list_level_style_bullet | .e_text_list_level_style_number | .s_style_master_page => True
+  | .s_text_list_level_style_bullet =>
+    ∃ lv name n, a.lookup kLevel = some lv ∧ rfindattr stack kStyleNameAttr = some name ∧ pyInt lv = some n
+  | .s_text_list_level_style_number =>
+    ∃ p rest name lv, stack = p :: rest ∧ p.2.lookup kStyleNameAttr = some name ∧ a.lookup kLevel = some lv
+  | _ => False
+
+theorem quiet_spec (cfg : Cfg) (ctx : Ctx) (h : HName) (q : Str) (a : Attrs) (pe pc : Bool) (st : St)
+    (hq : quietOK h a ctx.stack) : ∃ st1 pe1 pc1, runH cfg ctx h q a pe pc st = .ok (st1, pe1, pc1) ∧ QuietEff st st1 := by
+  cases h
+  case s_text_list_level_style_bullet =>
+    obtain ⟨lv, name, n, h1, h2, h3⟩ := hq
+    exact ⟨{ st with listtypes := (name ++ [95] ++ lv, nUl) :: st.listtypes }, pe, pc, by simp [runH, h1, h2, h3],
+      ⟨rfl, rfl, rfl, rfl, rfl, rfl⟩⟩
+  case s_text_list_level_style_number =>
+    obtain ⟨p, rest, name, lv, h1, h2, h3⟩ := hq
+    exact ⟨{ st with listtypes := (name ++ [95] ++ lv, nOl) :: st.listtypes }, pe, pc, by simp [runH, h1, h2, h3],
+      ⟨rfl, rfl, rfl, rfl, rfl, rfl⟩⟩
+  all_goals first
+    | exact ⟨_, _, _, rfl, ⟨rfl, rfl, rfl, rfl, rfl, rfl⟩⟩
+    | exact absurd hq (by simp [quietOK])
+
+mutual
+/-- `Head stack n`: node `n`, met below the elements `stack`, only runs handlers that write nothing -/
+inductive Head : List (Str × Attrs) → Node → Prop
+  | text (stack s) : Head stack (.text s)
+  | elem (stack q a kids) : (∀ h, (dispatch q).1 = some h → quietOK h a stack) →
+      (∀ h, (dispatch q).2 = some h → quietOK h a stack) → HeadL ((q, a) :: stack) kids → Head stack (.elem q a kids)
+inductive HeadL : List (Str × Attrs) → List Node → Prop
+  | nil (stack) : HeadL stack []
+  | cons (stack n ns) : Head stack n → HeadL stack ns → HeadL stack (n :: ns)
+end
+
+theorem QuietEff.of_data (st : St) (d : Str) : QuietEff st { st with data := d } := ⟨rfl, rfl, rfl, rfl, rfl, rfl⟩
+
+mutual
+theorem walk_head (cfg : Cfg) (n : Node) (ctx : Ctx) (st : St) (hh : Head ctx.stack n) :
+    ∃ st', walk cfg ctx st n = .ok st' ∧ QuietEff st st' := by
+  by_cases hpe : ctx.pe = true
+  · cases n with
+    | text s =>
+      refine ⟨_, walk_text cfg ctx st s, ?_⟩
+      split
+      · exact QuietEff.of_data st _
+      · exact QuietEff.refl st
+    | elem q a kids =>
+      cases hh with
+      | elem _ _ _ _ hs he hk =>
+        rw [walk_elem _ _ _ _ _ _ hpe]
+        -- start handler
+        have h1 : ∃ st1 pe1 pc1, startEl cfg ctx q a st = .ok (st1, pe1, pc1) ∧ QuietEff st st1 := by
+          unfold startEl
+          cases hd : (dispatch q).1 with
+          | none => exact ⟨st, _, _, rfl, QuietEff.refl st⟩
+          | some h => exact quiet_spec cfg ctx h q a ctx.pe ctx.pc st (hs h hd)
+        obtain ⟨st1, pe1, pc1, hr1, q1⟩ := h1
+        obtain ⟨st2, h2, q2⟩ := walkList_head cfg kids ⟨(q, a) :: ctx.stack, pe1, pc1⟩ st1 hk
+        simp only [hr1, h2]
+        by_cases hp1 : pe1 = true
+        · simp only [hp1, if_true]
+          unfold endEl
+          cases hd : (dispatch q).2 with
+          | none => exact ⟨st2, rfl, q1.trans q2⟩
+          | some h =>
+            obtain ⟨st3, pe3, pc3, hr3, q3⟩ := quiet_spec cfg ctx h q a true pc1 st2 (he h hd)
+            exact ⟨st3, by simp [hr3, Except.map], (q1.trans q2).trans q3⟩
+        · simp only [hp1]
+          exact ⟨st2, rfl, q1.trans q2⟩
+  · have hpe' : ctx.pe = false := by cases h : ctx.pe <;> simp_all
+    cases n with
+    | text s => exact ⟨st, by simp [walk, hpe'], QuietEff.refl st⟩
+    | elem q a kids => exact ⟨st, by simp [walk, hpe'], QuietEff.refl st⟩
+termination_by sizeOf n
+
+theorem walkList_head (cfg : Cfg) (l : List Node) (ctx : Ctx) (st : St) (hh : HeadL ctx.stack l) :
+    ∃ st', walkList cfg ctx st l = .ok st' ∧ QuietEff st st' := by
+  cases l with
+  | nil => exact ⟨st, by simp [walkList], QuietEff.refl st⟩
+  | cons n ns =>
+    cases hh with
+    | cons _ _ _ hn hns =>
+      obtain ⟨st1, h1, q1⟩ := walk_head cfg n ctx st hn
+      obtain ⟨st2, h2, q2⟩ := walkList_head cfg ns ctx st1 hns
+      exact ⟨st2, by simp [walkList, h1, h2], q1.trans q2⟩
+termination_by sizeOf l
+end
+
+theorem walkList_append (cfg : Cfg) (ctx : Ctx) (st : St) (l1 l2 : List Node) :
+    walkList cfg ctx st (l1 ++ l2) =
+      match walkList cfg ctx st l1 with
+      | .error e => .error e
+      | .ok st1 => walkList cfg ctx st1 l2 := by
+  induction l1 generalizing st with
+  | nil => simp [walkList]
+  | cons n ns ih =>
+    simp only [List.cons_append, walkList]
+    cases walk cfg ctx st n with
+    | error e => rfl
+    | ok st1 => exact ih st1
+
+/-! ### the document skeleton: html_body, generate_footnotes -/
+
+theorem htmlBody_spec (cfg : Cfg) (st : St) (hd : 0 < st.depth) :
+    ∃ st', htmlBody cfg st = .ok st' ∧ st'.depth = st.depth ∧ Same st st' ∧
+      ∀ s S, bal st.out s = some (nHead :: S) → bal st'.out s = some (nBody :: S) := by
+  unfold htmlBody
+  by_cases hc : cfg.css = true
+  · simp only [hc, if_true, bind, Except.bind, pure, Except.pure]
+    rw [closetag_ok _ _ _ (by simp)]
+    simp only []
+    rw [closetag_ok _ _ _ (by simp; omega)]
+    refine ⟨_, rfl, by simp; omega, by same_tac, ?_⟩
+    intro s S h
+    simp [bal_append, h, bal, br]
+  · have hc' : cfg.css = false := by cases h : cfg.css <;> simp_all
+    simp only [hc', bind, Except.bind, pure, Except.pure]
+    rw [if_neg (by simp)]
+    simp only []
+    rw [closetag_ok _ _ _ (by simpa using hd)]
+    refine ⟨_, rfl, by simp; omega, by same_tac, ?_⟩
+    intro s S h
+    simp [bal_append, h, bal, br]
+
+theorem footnoteItems_spec (ns : List (Option (List Tok))) (k : Nat) (st : St) (hn : NotesOK ns) :
+    ∃ st', footnoteItems ns k st = .ok st' ∧ st'.depth = st.depth ∧ Same st st' ∧
+      ∀ s S, bal st.out s = some S → bal st'.out s = some S := by
+  induction ns generalizing k st with
+  | nil => exact ⟨st, rfl, rfl, Same.refl st, fun _ _ h => h⟩
+  | cons n ns ih =>
+    obtain ⟨body, hb, hbal⟩ := hn n (by simp)
+    subst hb
+    simp only [footnoteItems]
+    rw [closetag_ok _ _ _ (by simp)]
+    obtain ⟨st', h', hd', hs', hb'⟩ := ih (k + 1) (closePure nLi true (emitAll body (opentag nLi [(aId, sFootnote ++ natToStr k)] false st)))
+      (fun x hx => hn x (by simp [hx]))
+    refine ⟨st', h', by rw [hd']; simp, ?_, ?_⟩
+    · exact Same.trans (by same_tac) hs'
+    · intro s S h
+      apply hb'
+      simp [bal_append, h, bal, br, hbal (nLi :: S)]
+
+theorem generateFootnotes_spec (cfg : Cfg) (st : St) (hn : NotesOK st.notes) :
+    ∃ st', generateFootnotes cfg st = .ok st' ∧ st'.depth = st.depth ∧ Same st st' ∧
+      ∀ s S, bal st.out s = some S → bal st'.out s = some S := by
+  unfold generateFootnotes
+  by_cases hc : st.cur = 0
+  · simp only [hc, if_true]
+    exact ⟨st, rfl, rfl, Same.refl st, fun _ _ h => h⟩
+  · simp only [hc, if_false, bind, Except.bind]
+    by_cases hcss : cfg.css = true
+    · simp only [hcss, if_true]
+      obtain ⟨st1, h1, hd1, hs1, hb1⟩ := footnoteItems_spec st.notes 1 (opentag nOl [(aStyle, sOlStyle)] true st) hn
+      simp only [opentag_notes] at h1 ⊢
+      simp only [h1]
+      rw [closetag_ok _ _ _ (by rw [hd1]; simp)]
+      refine ⟨_, rfl, by simp [hd1], ?_, ?_⟩
+      · have := Same.trans (a := st) (by same_tac) hs1
+        exact Same.trans this (by same_tac)
+      · intro s S h
+        have := hb1 s (nOl :: S) (by simp [bal_append, h, bal, br])
+        simp [bal_append, this, bal, br]
+    · have hcss' : cfg.css = false := by cases h : cfg.css <;> simp_all
+      simp only [hcss']
+      rw [if_neg (by simp)]
+      obtain ⟨st1, h1, hd1, hs1, hb1⟩ := footnoteItems_spec st.notes 1 (opentag nOl [] false st) hn
+      simp only [opentag_notes] at h1 ⊢
+      simp only [h1]
+      rw [closetag_ok _ _ _ (by rw [hd1]; simp)]
+      refine ⟨_, rfl, by simp [hd1], ?_, ?_⟩
+      · have := Same.trans (a := st) (by same_tac) hs1
+        exact Same.trans this (by same_tac)
+      · intro s S h
+        have := hb1 s (nOl :: S) (by simp [bal_append, h, bal, br])
+        simp [bal_append, this, bal, br]
 
 end OdfModel.Xhtml
